@@ -179,6 +179,8 @@ class Builtins:
         if len(args) != 1:
             raise OutOfSubset('3-argument type()', node)
         v = args[0]
+        if isinstance(v, VVal) and v.py == ('const', None):
+            return [(VClass('NoneType'), st)]
         if isinstance(v, VExc):
             return [(VVal(self.th.fn('exc_type', self.th.Exc, self.th.Val)(v.cls), kind='typeobj'), st)]
         t = self.th.type_of(self.toVal(v, st))
@@ -222,6 +224,9 @@ class Builtins:
     def bi_hasattr(self, args, kwargs, st, node):
         th = self.th
         o, n = args
+        if isinstance(o, VBuiltin) and o.name == 'iconv.into_data' and isinstance(n, VVal) and n.py == ('const', '_original'):
+            # the marker of the default Converter.into_data implementation
+            return [(VBool(th.fn('default_into_data', th.Val, th.B)(o.recv.term)), st)]
         if isinstance(n, VVal) and n.py is not None:
             if isinstance(o, VClass):
                 has = self.idx.find_method(o.name, n.py[1]) is not None
@@ -982,6 +987,28 @@ class Builtins:
             return [(VBool(th.fn('val_lt', th.Val, th.Val, th.B)(V(0), V(1))), st)]
         if name == 'card':
             return self.bi_len(args, kwargs, st, node)
+        if name == 'id_of':
+            return [(VVal(th.fn('id_of', th.Val, th.Val)(V(0)), kind='int'), st)]
+        if name == 'clsref':
+            return [(VClass(args[0].py[1]), st)]
+        if name in ('ret_make_converter', 'ret_into_data', 'ret'):
+            from .ex_call import san_key
+            if name == 'ret':
+                key, rest = args[0].py[1], list(args[1:])
+            else:
+                key, rest = {'ret_make_converter': 'pane.convert:make_converter', 'ret_into_data': 'pane.convert:into_data'}[name], list(args)
+            con = self.contracts.get(key)
+            fi = self.idx.funcs.get(key)
+            a_ = fi.node.args
+            pn = [p.arg for p in a_.posonlyargs + a_.args + a_.kwonlyargs]
+            vals = [self.toVal(x, st) for x in rest]
+            # missing trailing parameters take their declared defaults (evaluated like a call would)
+            if len(vals) < len(pn):
+                f = VFunc(fi.node, {}, fi.module, fi.qualname)
+                env = self.bind_params(fi.node, rest, {}, st, module=fi.module)
+                vals = [self.toVal(env[p], st) for p in pn]
+            t_ = th.fn('ret_' + san_key(key), *([th.Val] * len(vals)), th.Val)(*vals)
+            return [(self.mkval(t_, con.result_kind if con else None), st)]
         if name == 'isfinite':
             return [(VBool(th.fn('isfinite', th.Val, th.B)(V(0))), st)]
         if name == 'zlen':
